@@ -573,6 +573,15 @@ theorem all_hdrTestOk {i : Nat} {xs : List Ins} {ms : List Smp} (h : SlotsOk i x
       obtain ⟨h1, h2⟩ := slotsOk_cons.1 h
       simp only [List.zipWith_cons_cons, List.all_cons, hdrTestOk_rawHdr h1, ih h2, Bool.and_self]
 
+theorem any_vol_of_test {hdrs : List Hdr} (h : hdrs.all hdrTestOk = true) :
+    (hdrs.any fun h => decide (h.vol ≥ 128)) = false := by
+  rw [List.any_eq_false]
+  intro x hx
+  have := List.all_eq_true.1 h x hx
+  unfold hdrTestOk at this
+  simp only [Bool.and_eq_true, decide_eq_true_eq] at this
+  simp only [decide_eq_true_eq]; omega
+
 theorem any_len_of_sum (ms : List Smp) (h : (ms.map (·.len)).sum = 0) :
     ((ms.map fun m => { m with pcm := [] }).any fun x => decide (x.len > 0)) = false := by
   induction ms with
@@ -592,6 +601,7 @@ theorem read_eq_some {bs name r1 hb r2 lr r3 ords r4 magic r5 r6 : Bytes} {mi : 
     (hhdrs : decodeN 30 decHdr 31 hb = hdrs) (hpat : patCount ords 0 = pat)
     (hsmp : (hdrs.map fun h => 2 * h.size).sum = smpSize)
     (hdig : mi.digital = false) (htest : hdrs.all hdrTestOk = true)
+    (hvol : (hdrs.any fun h => decide (h.vol ≥ 128)) = false)
     (hflex : ¬ (1084 + pat * 4 * mi.chn * 64 + smpSize < bs.length))
     (hwow : magic = str "M.K." → ¬ (1084 + pat * 32 * 64 + smpSize = bs.length / 2 * 2))
     (hpt : magic = str "M.K." → 1084 + pat * 1024 = bs.length → ((hdrs.map hdrSmp).any fun x => decide (x.len > 0)) = false)
@@ -606,7 +616,7 @@ theorem read_eq_some {bs name r1 hb r2 lr r3 ords r4 magic r5 r6 : Bytes} {mi : 
                      ins := (List.range 31).zipWith hdrIns hdrs, smps := smps.map obsLoop,
                      spd := 6, bpm := 125 } := by
   unfold read
-  simp only [h1, h2, h3, h4, h5, hmi, hhdrs, hpat, hsmp, Option.bind_eq_bind, Option.bind_some, htest, hdig,
+  simp only [h1, h2, h3, h4, h5, hmi, hhdrs, hpat, hsmp, Option.bind_eq_bind, Option.bind_some, htest, hvol, hdig,
     decide_eq_false hflex, Bool.and_false, Bool.false_and, Bool.not_false, Bool.and_true, Bool.not_true,
     Bool.false_eq_true, if_false]
   have hW : ∀ a d : Bool, (a && decide (magic = str "M.K.") && d &&
@@ -703,6 +713,7 @@ theorem roundtrip (s : Module) (o : Opts) (h : WellFormed s o) (hA : NoAdpcm s.s
   have hds := decSmps_flat s.smps hpcm hA
   rw [← map_hdrSmp hslots] at hds
   have key := read_eq_some h1 h2 h3 h4 h5 hmi hH hpc hsum rfl (all_hdrTestOk hslots)
+    (any_vol_of_test (all_hdrTestOk hslots))
     (by rw [hsize]; show ¬ (1084 + s.pats.length * 4 * s.chn * 64 + _ < _); omega)
     (fun hMK => by rw [hsize, hmk hMK]; omega)
     (fun hMK hp => by
